@@ -13,12 +13,12 @@ import (
 	"testing"
 	"time"
 
+	"github.com/go-redis/redis/v8"
 	"github.com/refraction-networking/conjure/internal/conjurepath"
 	kit "github.com/refraction-networking/conjure/internal/verifkit"
 	"github.com/refraction-networking/conjure/pkg/station/log"
 	"github.com/refraction-networking/conjure/pkg/transports/wrapping/min"
 	pb "github.com/refraction-networking/conjure/proto"
-	"github.com/go-redis/redis/v8"
 	"google.golang.org/protobuf/proto"
 )
 
